@@ -165,27 +165,62 @@ LADDER = [(("call",), "call-overtaint"), (("object",), "object-level-field-taint
           (("call", "object"), "call-overtaint+object-level-field-taint")]
 
 
-def designated_words(facts, rules, tsite):
-    """operand names (vocabulary of taint_gen.lian_operand) designated by the sink rules that apply at tsite"""
+def rule_words(rule):
+    """operand names (vocabulary of taint_gen.lian_operand) a sink rule designates"""
     words = set()
-    for r in rules["sink"]:
-        if tg.sink_match(facts, r, tsite) is None:
-            continue
-        kind = tg.OP_KIND_SNK.get(r.get("operation"))
-        ts = tg.rule_targets(r)
-        if kind == "recordw" or not ts:
+    kind = tg.OP_KIND_SNK.get(rule.get("operation"))
+    ts = tg.rule_targets(rule)
+    if kind == "recordw" or not ts:
+        words.add("*")
+    for t in ts:
+        if t == "target" or not t:
             words.add("*")
-        for t in ts:
-            if t == "target" or not t:
-                words.add("*")
-            elif kind == "fieldw":
-                words.add("value" if t == "arg1" else "receiver")
-            else:
-                words.add(t)
+        elif kind == "fieldw":
+            words.add("value" if t == "arg1" else "receiver")
+        else:
+            words.add(t)
     return words
 
 
-def classify_flow(case, facts, graphs, rules, flow, ops, tainted_ops=None):
+def designated_words(facts, rules, tsite, ignore=None):
+    """words designated by the sink rules that apply at tsite; with `ignore`: by the rules that do NOT apply as they
+    are written but would if the given fields were ignored"""
+    words = set()
+    for r in rules["sink"]:
+        applies = tg.sink_match(facts, r, tsite) is not None
+        if ignore is None:
+            if applies:
+                words |= rule_words(r)
+        elif not applies and tg.sink_match(facts, r, tsite, ignore=ignore) is not None:
+            words |= rule_words(r)
+    return words
+
+
+def operand_exprs(facts, tsite, words):
+    """the expressions of the sink statement named by operand words"""
+    out = []
+    for c in facts.calls.get(tsite, []):
+        for w in words:
+            if w.startswith("arg") and w[3:].isdigit() and int(w[3:]) < len(c.args):
+                out.append(c.args[int(w[3:])])
+            elif w == "receiver" and isinstance(c.func, ast.Attribute):
+                out.append(c.func.value)
+            elif w == "callee":
+                out.append(c.func)
+            elif w == "*":
+                out.extend(c.args)
+                if isinstance(c.func, ast.Attribute):
+                    out.append(c.func.value)
+    for a, val in facts.attr_stores.get(tsite, []):
+        for w in words:
+            if w in ("value", "*"):
+                out.append(val)
+            if w in ("receiver", "*"):
+                out.append(a.value)
+    return out
+
+
+def classify_flow(case, facts, graphs, rules, flow, ops, tainted_ops=None, id_clash=False):
     """-> list of (sig, what) for one reported flow.  tainted_ops: the operands of the sink statement that carried the
     tag inside lian (observed by wrapping the sink check), or None."""
     graph = graphs.get()
@@ -202,64 +237,67 @@ def classify_flow(case, facts, graphs, rules, flow, ops, tainted_ops=None):
             out.append(((ID, "rule", "sink", top, fld),
                         "reported sink statement %s:%d (%s) matches no sink rule; the closest rule disagrees in: %s" % (
                             flow[2], flow[3], top, j["sink_relax"])))
-    if j["source_rule"] and j["sink_rule"] and not j["dependence"]:
-        ssite, tsite = (flow[0], flow[1]), (flow[2], flow[3])
+    if not (j["source_rule"] and j["sink_rule"]) or j["dependence"]:
+        return out
+    ssite, tsite = (flow[0], flow[1]), (flow[2], flow[3])
 
-        def reach_of(g):
-            seeds = set()
-            for r in rules["source"]:
-                how = tg.source_match(facts, r, ssite)
-                if how is not None:
-                    seeds |= g.source_seeds(ssite, how)
-            return g.closure(seeds)
-        why = None
-        detail = ""
-        # (a) the operand of a rule whose unit_name / line_num / lang excludes this statement
-        reach = reach_of(graph)
-        for r in rules["sink"]:
-            if tg.sink_match(facts, r, tsite) is None:
-                o = tg.sink_match(facts, r, tsite, ignore=("unit_name", "line_num", "lang"))
-                if o and any(graph.operand_states(x) & reach for x in o):
-                    why = "operand-of-excluded-rule"
-        # (a') the operand of a same-named rule that is written for another kind of statement
-        if why is None:
-            for r in rules["sink"]:
-                if tg.sink_match(facts, r, tsite) is None and tg.sink_match(facts, r, tsite, ignore=("operation",)) is not None:
-                    o = tg.sink_match(facts, r, tsite, ignore=("operation",))
-                    if o and any(graph.operand_states(x) & reach for x in o):
-                        why = "operand-of-other-operation-rule:" + top
-        # (a'') lian found the tag only on operands that no applicable rule designates
-        if why is None and tainted_ops:
-            want = designated_words(facts, rules, tsite)
-            if "*" not in want and not (set(tainted_ops) & want):
-                if case.get("keep_from_code"):
-                    why = "from-code-rules:other-operand"
-                else:
-                    why = "operand-not-designated"
-                    detail = "tainted %s, designated %s" % (sorted(tainted_ops), sorted(want))
-        # (b) which named weakening of the reference reading explains the report
-        if why is None:
-            for relax, name in LADDER:
-                g = graphs.get(relax)
-                jj = tg.justify(facts, g, rules, flow)
-                if jj["dependence"]:
-                    why = name
-                    break
-        if why is None:
-            sid, tid = site_meta(case)
-            s, t = sid.get(ssite), tid.get(tsite)
-            where = "undeclared-site" if (s is None or t is None) else ("cross-chain" if s["chain"] != t["chain"] else t["ending"])
-            # one class: no named weakening of the reference reading explains the report (the construction it
-            # was found in only goes into the message)
-            why = "unexplained"
-            detail = where
-            if case.get("keep_from_code") and j["other_operand"]:
-                # only the shipped *_from_code.yaml rules distinguish this run from the others
-                why = "from-code-rules:other-operand"
-        out.append(((ID, "dependence", why),
-                    "reported flow %s:%d -> %s:%d: the operand designated by the matching sink rules does not depend on the "
-                    "source statement even flow-insensitively (%s%s)" % (flow[0], flow[1], flow[2], flow[3], why,
-                                                                         (" in " + detail) if detail else "")))
+    def reach_of(g):
+        seeds = set()
+        for r in rules["source"]:
+            how = tg.source_match(facts, r, ssite)
+            if how is not None:
+                seeds |= g.source_seeds(ssite, how)
+        return g.closure(seeds)
+
+    def msg(why, detail=""):
+        return ("reported flow %s:%d -> %s:%d: the operand designated by the matching sink rules does not depend on the "
+                "source statement even flow-insensitively (%s%s)" % (flow[0], flow[1], flow[2], flow[3], why,
+                                                                     ("; " + detail) if detail else ""))
+    want = designated_words(facts, rules, tsite)
+    tainted = set(tainted_ops or [])
+    check_words = want
+    # Q1 (position): did lian find the tag on an operand that an applicable rule designates?
+    if tainted and "*" not in want and not (tainted & want):
+        if tainted & designated_words(facts, rules, tsite, ignore=("unit_name", "line_num", "lang")):
+            why = "operand-of-excluded-rule"
+        elif tainted & designated_words(facts, rules, tsite, ignore=("operation",)):
+            why = "operand-of-other-operation-rule:" + top
+        elif case.get("keep_from_code"):
+            why = "from-code-rules:other-operand"
+        else:
+            why = "operand-not-designated"
+        out.append(((ID, "dependence", why), msg(why, "lian found the tag on %s, the applicable rules designate %s" % (
+            sorted(tainted), sorted(want)))))
+        check_words = tainted
+    elif tainted:
+        check_words = tainted if "*" in want else (tainted & want)
+    # Q2 (taint): does the operand that carried the tag depend on the source under the reference reading, and if not,
+    # which named weakening of that reading explains it?
+    exprs = operand_exprs(facts, tsite, check_words)
+    reach = reach_of(graph)
+    if exprs and any(graph.operand_states(x) & reach for x in exprs):
+        return out
+    why = None
+    for relax, name in LADDER:
+        g = graphs.get(relax)
+        r2 = reach_of(g)
+        if any(g.operand_states(x) & r2 for x in exprs):
+            why = name
+            break
+    detail = ""
+    if why is None:
+        sid, tid = site_meta(case)
+        s, t = sid.get(ssite), tid.get(tsite)
+        detail = "undeclared-site" if (s is None or t is None) else ("cross-chain" if s["chain"] != t["chain"] else t["ending"])
+        # one class: no named weakening of the reference reading explains the taint (the construction it was found
+        # in only goes into the message)
+        why = "unexplained"
+        if id_clash:
+            # observed inside lian: the tainted operand's symbol id is also the id of a STATE node of the graph
+            why = "unexplained:symbol-id-equals-a-state-id"
+        if case.get("keep_from_code") and not tainted:
+            why = "from-code-rules:other-operand"
+    out.append(((ID, "dependence", why), msg(why, detail)))
     return out
 
 
@@ -287,7 +325,8 @@ def check_case(case):
                 len(lr["flows"]), which, sorted(lr["flows"])[:3])))
             continue
         for flow in sorted(lr["flows"]):
-            out.extend(classify_flow(case, facts, graphs, rules, flow, ops, lr.get("operands", {}).get(flow)))
+            out.extend(classify_flow(case, facts, graphs, rules, flow, ops, lr.get("operands", {}).get(flow),
+                                     flow in lr.get("id_clash", ())))
     if "small" in info["flows"]:
         lost = sorted(info["flows"]["small"] - info["flows"]["full"])
         if lost:
@@ -503,7 +542,7 @@ def main(tier, seed, t0):
     for k in sorted(avoid):
         col.stepovers["rule-kind " + k + " (cannot report, see C10)"] += 1
     total = 500 if tier == "quick" else 12000
-    nsh = common.NCPU if tier == "quick" else common.NCPU * 4
+    nsh = 16 if tier == "quick" else 64       # fixed: the run must not depend on the number of cores
     per = total // nsh + 1
     args = [(common.shard_seed(seed, i), per, sorted(avoid), True) for i in range(nsh)]
     col.merge(common.run_shards(random_shard, args))
@@ -512,7 +551,7 @@ def main(tier, seed, t0):
         if not items:
             col.notes.append("from-code sweep skipped: no usable rule in default_settings/sink_from_code.yaml")
         else:
-            n = min(common.NCPU, len(items))
+            n = min(16, len(items))
             col.merge(common.run_shards(from_code_shard, [items[i::n] for i in range(n)]))
     return common.finish(ID, tier, seed, col, t0, RULE, ASSUMPTIONS,
                          extra_coverage={"rule_kinds_not_generated": sorted(avoid)})
